@@ -18,7 +18,7 @@ V == 0 .. (M - 1)
 
 (* ------------------------------------------------------------ definitions *)
 Dist(v, w) == (w - v + M) % M                       \* forward distance from v to w
-Precedes(v, w) == 1 <= Dist(v, w) /\ Dist(v, w) <= H - 1
+Precedes(v, w) == LET d == Dist(v, w) IN 1 <= d /\ d <= H - 1
 PrecedesEq(v, w) == v = w \/ Precedes(v, w)
 InRange(v, a, b) == Dist(a, v) < Dist(a, b)         \* v in [a, b)
 Add(v, s) == (v + s) % M                            \* the number following [v, v+s)
@@ -26,6 +26,8 @@ Size(v, w) == Dist(v, w)                            \* size of [v, w)
 InWindow(v, first, size) == Dist(first, v) < size   \* v in [first, first+size)
 InBoth(k, a, b, x, y) == Dist(a, k) < b /\ Dist(x, k) < y
 Share(a, b, x, y) == \E k \in V : InBoth(k, a, b, x, y)      \* [a,a+b) and [x,x+y) share a number
+Window(a, b) == {k \in V : Dist(a, k) < b}                   \* the window [a, a+b) as a set
+ShareSet(a, b, x, y) == (Window(a, b) \cap Window(x, y)) # {}  \* the same statement on sets
 (* Lemma (ShareLemma, checked for every tuple): two windows that share a number
    share the first number of one of them.  ShareW is the form that can be
    evaluated at M = 2^32. *)
@@ -49,7 +51,7 @@ UpdateForwardImpl(v, s) == U(v + s)
 F2a(v, w) == Dist(v, w) = H
 
 (* q is 1..H ahead of p (antipode included): what int32(p-q) < 0 computes *)
-Ahead(p, q) == 1 <= Dist(p, q) /\ Dist(p, q) <= H
+Ahead(p, q) == LET d == Dist(p, q) IN 1 <= d /\ d <= H
 EndsAhead(a, b, x, y) == Ahead(a, Add(x, y)) /\ Ahead(x, Add(a, b))
 (* F2b: exact set of tuples where Overlap differs from "share a number".
    F2bEmpty: a window is empty (so nothing is shared) but each window's end is
